@@ -132,6 +132,10 @@ pub enum AdminOp {
     AddTypeItem(TypeItemSpec),
     /// set_date_rule for both languages: the stock spellings, the numeric one as day/month/year or month/day/year
     SetDateRule { mdy: bool },
+    /// the calculator is REPLACED by one built with SmartCalc::load_from_json from the shipped table in which the
+    /// dollar's rate is `usd` (plus the stock date spellings, as SmartCalc::default installs them); only meaningful
+    /// as the first event of a trace
+    LoadTable { usd: f64 },
 }
 
 impl AdminOp {
@@ -141,6 +145,7 @@ impl AdminOp {
             AdminOp::SetTimezone { .. } => "admin.zone_change",
             AdminOp::SetDecimalSep { .. } | AdminOp::SetThousandSep { .. } | AdminOp::SetNumberCfg { .. } | AdminOp::SetPercentCfg { .. } | AdminOp::SetMoneyCfg { .. } => "admin.format_change",
             AdminOp::SetDateRule { .. } => "admin.date_rule_change",
+            AdminOp::LoadTable { .. } => "admin.table_loaded_from_json",
             AdminOp::AddRule { .. } => "admin.rule_add",
             AdminOp::DeleteRule { .. } => "admin.rule_delete",
             AdminOp::AddType { .. } | AdminOp::AddTypeItem(_) => "admin.type_add",
